@@ -1,4 +1,4 @@
-import Oidc.Proofs.Limiter
+import Oidc.Proofs.Limiter2
 import Oidc.Proofs.Verify
 import Oidc.Facts
 /-! # C19 — verification rate limit (property theorems only)
@@ -31,6 +31,19 @@ theorem steady_admitted (r b : Int) (hr : 0 ≤ r) (hbU : U ≤ b) (g : Int) (hg
     ∀ d ∈ decisions r b l (t0 :: ts), d = true :=
   Oidc.Limiter.steady_admitted r b hr hbU g hg l hl ts t0 h0 hU (fun _ => trivial) hp
 
+/-- sustained rate: over any stretch of continuous overload (consecutive arrivals at most `g` apart with `r·g ≤ U`, i.e. demand of
+    at least `r` per second) starting from a drained bucket, `U·(admitted + 1) > r·Δ` — at least `r` per second are admitted -/
+theorem overload_throughput (r b : Int) (hr : 0 ≤ r) (hb : 2 * U ≤ b) (g : Int) (hg : r * g ≤ U) (l : L)
+    (hl0 : 0 ≤ l.tok) (hl : l.tok < U) (ts : List Int) (hs : Sorted l.last ts) (hd : Dense g l.last ts) :
+    r * ((run r b l ts).1.last - l.last) < U * ((run r b l ts).2 + 1) :=
+  Oidc.Limiter.overload_throughput r b hr hb g hg l hl0 hl ts hs hd
+
+/-- conservation while the bucket is never full: tokens at the end + admitted = tokens at the start + refill -/
+theorem run_exact (r b : Int) (l : L) (ts : List Int) (hs : Sorted l.last ts) (hu : Uncapped r b l ts) :
+    (run r b l ts).1.tok + U * (run r b l ts).2 = l.tok + r * ((run r b l ts).1.last - l.last) ∧
+    l.last ≤ (run r b l ts).1.last :=
+  Oidc.Limiter.run_exact r b l ts hs hu
+
 /-- the bucket invariant holds in every reachable state -/
 theorem inv_run (r b : Int) (l : L) (ts : List Int) (hr : 0 ≤ r) (hb : 0 ≤ b) (h : Inv b l) : Inv b (run r b l ts).1 :=
   Oidc.Limiter.inv_run r b l ts hr hb h
@@ -57,5 +70,9 @@ example : (decisions 10 (10 * U) (init 10) ((List.range 40).map (fun (i : Nat) =
 example : (decisions 1 (10 * U) (init 10) ((List.range 12).map (fun (i : Nat) => (i : Int) * 100000000))).getLast? = some false :=
   Oidc.Limiter.unfixed_rate_refuses
 example : Limiter.Inv (10 * U) (init 10) := by simp [Limiter.Inv, init, U]
+/-- overload at 30 per second against a limit of 10 per second, drained bucket, for one second: 10 admitted of 30 -/
+example : (run 10 (10 * U) ⟨0, 0⟩ ((List.range 30).map (fun (i : Nat) => ((i : Int) + 1) * 33333333))).2 = 9 := by decide
+example : Dense 33333333 0 ((List.range 30).map (fun (i : Nat) => ((i : Int) + 1) * 33333333)) := by
+  simp only [Dense, List.range, List.range.loop, List.map]; decide
 
 end Oidc.Props.C19
